@@ -54,7 +54,15 @@ fn gen_case(c: &mut Chooser) -> Case {
     let base = c18::base_files();
     let mut files: BTreeMap<String, String> = BTreeMap::new();
     let (main_s, ext_s) = (base[c18::F_MAIN_S].clone(), base[c18::F_EXT_S].clone());
-    match c.choose("schema.files", 3) {
+    match c.choose("schema.files", 4) {
+        3 => {
+            // a tiny first file with two definitions on distant lines, and header comments on the files parsed after it:
+            // the next file's first token lies beyond the offset of the previous file's last definition
+            files.insert("schema/a_first.graphql".into(), "scalar Aa\n\n\n\nscalar Ab\n".into());
+            files.insert("schema/main.graphql".into(), format!("# schema of the demo project (main part)\n{main_s}"));
+            files.insert("schema/ext.graphql".into(), format!("# extensions, kept apart from the main part\n{ext_s}"));
+            tags.push("tiny-first-schema-file-then-header-comments".into());
+        }
         0 => {
             files.insert("schema/main.graphql".into(), main_s);
             files.insert("schema/ext.graphql".into(), ext_s);
@@ -176,7 +184,7 @@ fn gen_case(c: &mut Chooser) -> Case {
     if date_ts != "string" {
         tags.push(format!("scalar-mapped-to-its-namesake:{date_ts}"));
     }
-    y.push_str(&format!("      type:\n        scalarTypes:\n          Date: {date_ts}\n          Url: string\n          Json: unknown\n          Big: string\n"));
+    y.push_str(&format!("      type:\n        scalarTypes:\n          Date: {date_ts}\n          Url: string\n          Json: unknown\n          Big: string\n          Aa: string\n          Ab: string\n"));
     files.insert(if sub { "cfg/graphql.config.yaml".to_string() } else { "graphql.config.yaml".to_string() }, y.clone());
     Case { files, yaml: y, schema_out, resolvers_out, mode, tags }
 }
